@@ -61,7 +61,35 @@ AIRPORTS = [
     ('CDG', 'Charles de Gaulle', 49.012798, 2.55, 392, 'FR', 'Paris', 'Europe/Paris'),
     ('FRA', 'Frankfurt am Main', 50.033333, 8.570556, 364, 'DE', 'Frankfurt', 'Europe/Berlin'),
 ]
-AP = {a[0]: a for a in AIRPORTS}
+AP_HARNESS = {a[0]: a for a in AIRPORTS}
+AP = AP_HARNESS            # the airport table of the stream being processed (see use_world)
+AIRPORT_TYPES = ['large_airport', 'closed', 'medium_airport', 'heliport', 'small_airport', 'seaplane_base', 'balloonport']
+_AP_SHIPPED = None
+
+
+def shipped_airports():
+    """The airport data the repository ships, read independently with csv.DictReader: the main file the test
+    configuration resolves (tests/data/airports/airports.csv) overlaid by src/AEIC/data/airports/airports-patch.csv;
+    every row with a non-empty IATA code, whatever its `type`.  Zones from timezonefinder (trusted library)."""
+    global _AP_SHIPPED
+    if _AP_SHIPPED is None:
+        from timezonefinder import TimezoneFinder
+        tf = TimezoneFinder()
+        out = {}
+        for f in (REPO / 'tests/data/airports/airports.csv', REPO / 'src/AEIC/data/airports/airports-patch.csv'):
+            with open(f, newline='', encoding='utf-8') as fp:
+                for r in csv.DictReader(fp):
+                    if r['iata_code']:
+                        lat, lon = float(r['latitude_deg']), float(r['longitude_deg'])
+                        out[r['iata_code']] = (r['iata_code'], r['name'], lat, lon, r['elevation_ft'], r['iso_country'],
+                                               r['municipality'], tf.certain_timezone_at(lat=lat, lng=lon), r['type'])
+        _AP_SHIPPED = out
+    return _AP_SHIPPED
+
+
+def use_world(world: str):
+    global AP
+    AP = shipped_airports() if world == 'shipped' else AP_HARNESS
 UNKNOWN_CODES = ['QQQ', 'ZZX', 'XQ9']
 NEAR_PAIRS = [('LHR', 'LH2'), ('LH2', 'LHR'), ('LHR', 'LGW'), ('LCY', 'LHR'), ('LGW', 'LCY'), ('LHR', 'LHR')]
 DATA_YEARS = [2019, 2019, 2019, 2019, 2016, 2020, 2021, 2024]
@@ -383,6 +411,82 @@ def dst_cases(rng):
     return out
 
 
+def misorder_straddle_cases(rng):
+    """Ranges that straddle a change of the origin-minus-destination UTC-offset difference, with local times chosen so
+    that the dates on one side of the change are mis-ordered (arrival 30 min before departure) and those on the other
+    side are fine (30 min after): earlier-bad/later-good and the reverse, for origin and for destination switches."""
+    out = [
+        {'year': 2019, 'kind': 'misorder-straddle',
+         'row': _base_row('LHR', 'JFK', dt.date(2019, 3, 1), dt.date(2019, 4, 10), deptim='1800', arrtim='1330')},
+        {'year': 2019, 'kind': 'misorder-straddle',
+         'row': _base_row('JFK', 'LHR', dt.date(2019, 10, 20), dt.date(2019, 11, 10), deptim='0900', arrtim='1330')},
+    ]
+    seen = set()
+    for a in AIRPORTS:
+        zone = a[7]
+        if zone in seen:
+            continue
+        seen.add(zone)
+        _, table = tz_table(zone)
+        for start, _off in table:
+            t = _EPOCH + dt.timedelta(minutes=start)
+            if t.year != 2019:
+                continue
+            sw = t.date()
+            partner = rng.choice([b for b in AIRPORTS if b[7] != zone and b[0] != 'LH2'
+                                  and not _dst_days(b[7], 2019)] or [AP_HARNESS['SIN']])
+            for role in ('origin', 'destination'):
+                o, d = (a, partner) if role == 'origin' else (partner, a)
+                first = sw - dt.timedelta(days=rng.randint(3, 9))
+                hh = rng.choice([6, 10, 14, 20])
+                dep_local = dt.datetime.combine(first, dt.time(hh, 30))
+                dep_utc = dep_local.replace(tzinfo=ZoneInfo(o[7])).astimezone(dt.timezone.utc)
+                gap = rng.choice([-30, 30])                 # minutes between departure and arrival before the switch
+                arr_local = (dep_utc + dt.timedelta(minutes=gap)).astimezone(ZoneInfo(d[7])).replace(tzinfo=None)
+                off = (arr_local.date() - first).days
+                if off not in (-1, 0, 1, 2):
+                    continue
+                row = _base_row(o[0], d[0], first, sw + dt.timedelta(days=rng.randint(3, 9)),
+                                deptim=f'{hh:02d}30', arrtim=f'{arr_local.hour:02d}{arr_local.minute:02d}',
+                                arrday={-1: 'P', 0: '', 1: '1', 2: '2'}[off])
+                out.append({'year': 2019, 'row': row, 'kind': 'misorder-straddle'})
+    return out
+
+
+def shipped_cases(rng):
+    """Rows between airports of the SHIPPED data (main file + airports-patch.csv, every `type`): stated distance 0, so
+    nothing but an unknown airport could drop them; plus codes that are in neither file."""
+    use_world('shipped')
+    ap = shipped_airports()
+    codes = sorted(ap)
+    out = []
+    line = 2
+    for c in codes:
+        for _ in range(40):
+            p_ = rng.choice(codes)
+            g = geod_m(ap[c][3], ap[c][2], ap[p_][3], ap[p_][2])
+            gs = geod_m(ap[c][2], ap[c][3], ap[p_][2], ap[p_][3])
+            if p_ != c and g is not None and g > 5000 and (gs is None or gs > 5000):
+                break
+        else:
+            continue
+        o, d = (c, p_) if rng.random() < 0.5 else (p_, c)
+        start = dt.date(2019, 1, 1) + dt.timedelta(days=rng.randint(0, 350))
+        row = _base_row(o, d, start, start + dt.timedelta(days=rng.randint(0, 6)),
+                        deptim=f'{rng.randint(0, 23):02d}{rng.randint(0, 59):02d}', arrtim='2345', arrday='2')
+        out.append({'year': 2019, 'line': line, 'row': row, 'kind': 'shipped:' + ap[c][8]})
+        line += 1
+    unknown = ['QQQ', 'ZZX', 'XQ9'] + [x for x in ('AAQ', 'ZQZ', 'QZX', 'LH2', 'CXI') if x not in ap]
+    for u in unknown:
+        k = rng.choice(codes)
+        row = _base_row(k, k, dt.date(2019, 5, 1), dt.date(2019, 5, 3))
+        row['depapt' if rng.random() < 0.5 else 'arrapt'] = u
+        out.append({'year': 2019, 'line': line, 'row': row, 'kind': 'shipped:unknown-code'})
+        line += 1
+    use_world('harness')
+    return out
+
+
 ODD_VALUES = {
     'distance': [' 120', '+120', '-5', '120 '], 'seats': [' 150', '+150'], 'stops': ['0', ' 0', '+0', '000'],
     'fltno': ['', ' 12', '+7'], 'deptim': ['2400', '0960', '930', ' 930', '-100'], 'arrtim': ['2400', '1260', '5'],
@@ -617,7 +721,7 @@ def write_airports(dirpath: Path):
         w = csv.DictWriter(fp, fieldnames=cols, quoting=csv.QUOTE_ALL)
         w.writeheader()
         for i, a in enumerate(AIRPORTS):
-            w.writerow({'id': 1000 + i, 'ident': 'X' + a[0], 'type': 'large_airport', 'name': a[1],
+            w.writerow({'id': 1000 + i, 'ident': 'X' + a[0], 'type': AIRPORT_TYPES[i % len(AIRPORT_TYPES)], 'name': a[1],
                         'latitude_deg': repr(a[2]), 'longitude_deg': repr(a[3]), 'elevation_ft': a[4] if i % 7 else '',
                         'continent': '', 'iso_country': a[5], 'iso_region': '', 'municipality': a[6],
                         'scheduled_service': 'yes', 'icao_code': '', 'iata_code': a[0], 'gps_code': '',
@@ -627,8 +731,9 @@ def write_airports(dirpath: Path):
 class Impl:
     """One OAGDatabase per data year; rows are fed one at a time through from_csv_row + add."""
 
-    def __init__(self, chk: Check):
+    def __init__(self, chk: Check, world: str = 'harness'):
         self.chk = chk
+        self.world = world
         self.data = chk.tmp / 'data'
         write_airports(self.data)
         os.environ['AEIC_PATH'] = str(REPO / 'tests/data')
@@ -636,7 +741,7 @@ class Impl:
         logging.getLogger('AEIC.missions.writable_database').setLevel(logging.WARNING)
         from AEIC.config import Config
         Config.reset()
-        Config.load(data_path_overrides=[self.data, REPO / 'tests/data'])
+        Config.load(data_path_overrides=([self.data] if world == 'harness' else []) + [REPO / 'tests/data'])
         import AEIC.utils.airports as apmod
         apmod._airports = None
         apmod._countries = None
@@ -659,7 +764,7 @@ class Impl:
         from AEIC.missions.oag import OAGDatabase
         if year not in self.dbs:
             self.n += 1
-            self.dbs[year] = OAGDatabase(str(self.chk.tmp / f'oag_{year}_{self.n}.sqlite'), year)
+            self.dbs[year] = OAGDatabase(str(self.chk.tmp / f'oag_{self.world}_{year}_{self.n}.sqlite'), year)
         return self.dbs[year]
 
     def run(self, case):
@@ -941,22 +1046,26 @@ def nontrivial(case, orc) -> bool:
     e = orc['expected']
     return bool(e and not orc['reasons'] and len(e['instances']) >= 1
                 and (case['kind'] in ('open-both', 'open-from', 'open-to', 'year-crossing', 'around-dst', 'single-day',
-                                      'leap-boundary') or case['kind'].startswith(('dst-switch', 'open-', 'explicit,'))
+                                      'leap-boundary') or case['kind'].startswith(('dst-switch', 'open-', 'explicit,', 'misorder-straddle', 'shipped:'))
                      or e['dropped'] > 0 or e['arrday'] != 0))
 
 
-def check_rows(chk: Check, cases):
+def check_rows(chk: Check, cases, world: str = 'harness'):
     from AEIC.missions.oag import EXCLUDE_EQUIPMENT
-    impl = Impl(chk)
+    use_world(world)
+    for c in cases:
+        c['world'] = world
+    impl = Impl(chk, world)
     try:
         impl_out = [impl.run(c) for c in cases]
-        whole_file(chk, impl, cases, impl_out)
+        if world == 'harness':
+            whole_file(chk, impl, cases, impl_out)
     finally:
         impl.close()
-    model_out = chk.coq_eval(HEADER, [coq_case(c) for c in cases], shard=40)
+    model_out = chk.coq_eval(HEADER, [coq_case(c) for c in cases], shard=40, label=f'cases_{world}')
     for c, io, mo in zip(cases, impl_out, model_out):
         orc = oracle(c, set(EXCLUDE_EQUIPMENT))
-        chk.case({'year': c['year'], 'row': c['row']}, nontrivial(c, orc))
+        chk.case({'year': c['year'], 'row': c['row'], 'world': world}, nontrivial(c, orc))
         chk.count('range:' + c.get('kind', '?'))
         chk.count('impl:' + io['result'] + (':' + io['warning'] if io.get('warning') else ''))
         for r in orc['reasons']:
@@ -1028,7 +1137,8 @@ def gen_cases(chk: Check, n: int):
             continue
         out.append(c)
         line += 1
-    fixed = cross_year_cases(chk.rng) + dst_cases(chk.rng) + odd_and_malformed_cases(chk.rng, chk.n(60, 400))
+    fixed = (cross_year_cases(chk.rng) + dst_cases(chk.rng) + misorder_straddle_cases(chk.rng)
+             + odd_and_malformed_cases(chk.rng, chk.n(60, 400)))
     fixed += [dict(c) for c in chk.rng.sample(out, min(12, len(out)))]          # the same row again: a second flight
     chk.rng.shuffle(fixed)
     for c in fixed:
@@ -1083,6 +1193,7 @@ def run(chk: Check):
     n = chk.n(700, 6000)
     cases = load_corpus(chk) + gen_cases(chk, n)
     check_rows(chk, cases)
+    check_rows(chk, shipped_cases(chk.rng), world='shipped')
 
 
 def replay(chk: Check, rp):
@@ -1090,4 +1201,4 @@ def replay(chk: Check, rp):
     extract(chk)
     case = (rp.get('case') or {}).get('case')
     if case:
-        check_rows(chk, [case])
+        check_rows(chk, [case], world=case.get('world', 'harness'))
